@@ -547,6 +547,12 @@ func (vc *VC) QueryOpt(o *Obligation, wantModel bool, groundOnly bool) string {
 				ms = append(ms, m)
 			}
 		}
+		// string literals in the query: their model values let a replay map abstract strings back
+		for _, k := range sortedKeys(need) {
+			if strings.HasPrefix(k, "str!") && need[k] {
+				ms = append(ms, k)
+			}
+		}
 		if len(ms) > 0 {
 			sb.WriteString("(get-value (" + strings.Join(ms, " ") + "))\n")
 		}
